@@ -31,7 +31,7 @@ Proj(o) == [fmt |-> o.fmt, codes |-> o.codes, cfg |-> o.cfg, st |-> o.st]
 \* which property a deviation of the TARGET's value/format belongs to, by the kind of call
 ValueProp(a) == CASE a.act \in {"New", "Store", "SetItem"} -> "C01" [] a.act = "SetItemFxp" -> "C10"
                   [] a.act \in {"Resize", "CtorLike", "Like", "LikeShallow", "Assign", "DeepCopy", "CopyShallow"} -> "C10"
-                  [] a.act = "BinOp" -> "C07" [] a.act = "BinOpOut" -> "C08" [] a.act = "Neg" -> "C08" [] a.act = "RShiftKeep" -> "C14" [] a.act = "Invert" -> "C13"
+                  [] a.act = "BinOp" -> "C07" [] a.act = "BinOpOut" -> "C08" [] a.act = "Neg" -> "C08" [] a.act \in {"RShiftKeep", "LShiftKeep"} -> "C14" [] a.act = "Invert" -> "C13"
                   [] OTHER -> "C20"
 \* compare one object; returns TRUE iff it agrees (prints the first differing field otherwise)
 AgreeObj(e, x, exp, got, isTarget) ==
